@@ -121,6 +121,22 @@ def eps_flow(model: Model, caller_short: str, callee_q: str, eps_param="eps", po
                      if any(isinstance(x, ast.Name) and x.id == eps_param for x in ast.walk(a))]
             if len(cands) == 1:
                 arg = cands[0]
+            else:
+                # ... or a record built from it (`options = SimpleNamespace(eps=eps, ...)`; `_Options(eps=eps, ...)`) that is handed over
+                for a in list(call.args) + [kw.value for kw in call.keywords]:
+                    if isinstance(a, ast.Name):
+                        defs = [d.value for d in ast.walk(f.node) if isinstance(d, ast.Assign) and len(d.targets) == 1 and isinstance(d.targets[0], ast.Name)
+                                and d.targets[0].id == a.id and isinstance(d.value, ast.Call)]
+                        for dv in defs:
+                            inner = [x for x in list(dv.args) + [kw.value for kw in dv.keywords]
+                                     if any(isinstance(y, ast.Name) and y.id == eps_param for y in ast.walk(x))]
+                            if len(inner) == 1:
+                                arg = inner[0]
+        if arg is None and idx is None:
+            obs.append(Ob(rule, k, ERROR, model.where(f, call), norm(call)[:100],
+                          f"{callee_q.rsplit('.', 1)[-1]} no longer has a parameter called `eps` and no argument of this call carries the caller's tolerance "
+                          "in a form this rule follows: not decided"))
+            continue
         k = f"{caller_short}:{rule}:{callee_q.rsplit('.', 1)[-1]}({norm(call)[:40]})"
         if arg is None:
             obs.append(Ob(rule, k, VIOLATED, model.where(f, call), norm(call)[:100],
